@@ -647,6 +647,67 @@ theorem parseStatus_head (fuel : Nat) (closed : Bool) (code : Nat) (reasonWords 
   simp [parseStatus, hpl, parseStatusLine_text code reasonWords hw hc, h100]
 
 
+theorem odGet_odSet {β : Type} (d : List (Str × β)) (k k' : Str) (v : β) :
+    odGet (odSet d k' v) k = if k' = k then some v else odGet d k := by
+  induction d with
+  | nil => simp [odSet, odGet]
+  | cons a d ih =>
+    obtain ⟨ka, va⟩ := a
+    simp only [odSet]
+    by_cases h1 : ka = k'
+    · subst h1
+      simp only [if_true, odGet]
+      by_cases h2 : ka = k <;> simp [h2]
+    · simp only [h1, if_false, odGet, ih]
+      by_cases h2 : ka = k
+      · subst h2; simp [h1]; intro h; exact absurd h.symm h1
+      · simp [h2]
+
+def envKey (name : Str) : Str := "HTTP_".toList ++ upper (replaceC '-' '_' name)
+
+theorem env_fold_other (hs : List (Str × Str)) (base : List (Str × EVal)) (k : Str)
+    (hk : ¬ ("HTTP_".toList).isPrefixOf k) :
+    odGet (hs.foldl (fun env kv => odSet env (envKey kv.1) (.str kv.2)) base) k = odGet base k := by
+  induction hs generalizing base with
+  | nil => rfl
+  | cons kv hs ih =>
+    simp only [List.foldl_cons]
+    rw [ih, odGet_odSet]
+    have : envKey kv.1 ≠ k := by
+      intro e; apply hk; rw [← e]; simp [envKey]
+    simp [this]
+
+theorem env_fold_header (hs : List (Str × Str)) (base : List (Str × EVal)) (n v : Str) (h : (n, v) ∈ hs) :
+    ∃ v', odGet (hs.foldl (fun env kv => odSet env (envKey kv.1) (.str kv.2)) base) (envKey n) = some (.str v') := by
+  induction hs generalizing base with
+  | nil => cases h
+  | cons kv hs ih =>
+    simp only [List.foldl_cons]
+    by_cases hin : (n, v) ∈ hs
+    · exact ih _ hin
+    · have : kv = (n, v) := by
+        simp only [List.mem_cons] at h
+        rcases h with h | h
+        · exact h.symm
+        · exact absurd h hin
+      subst this
+      -- the entry is set now; later headers either leave it or overwrite it with another text
+      have key : ∀ (rest : List (Str × Str)) (b : List (Str × EVal)), (∃ v', odGet b (envKey n) = some (.str v')) →
+          ∃ v', odGet (rest.foldl (fun env kv => odSet env (envKey kv.1) (.str kv.2)) b) (envKey n) = some (.str v') := by
+        intro rest
+        induction rest with
+        | nil => intro b hb; exact hb
+        | cons x xs ihx =>
+          intro b hb
+          simp only [List.foldl_cons]
+          apply ihx
+          rw [odGet_odSet]
+          by_cases hx : envKey x.1 = envKey n
+          · exact ⟨x.2, by simp [hx]⟩
+          · simpa [hx] using hb
+      exact key hs _ ⟨v, by rw [odGet_odSet]; simp⟩
+
+
 instance (s : Str) : Decidable (Visible s) := by unfold Visible; infer_instance
 instance (s : Str) : Decidable (GoodName s) := by unfold GoodName; infer_instance
 instance (s : Str) : Decidable (Trimmed s) := by unfold Trimmed; infer_instance
